@@ -343,7 +343,28 @@ type MessageBadEnumWithoutTag struct {
 
 func (*MessageBadEnumWithoutTag) GetID() uint32 { return 900022 }
 
+type MessageBadZeroLenString struct {
+	A string `mavlen:"0"`
+	B uint8
+}
+
+func (*MessageBadZeroLenString) GetID() uint32 { return 900023 }
+
+type MessageBadNegativeLenString struct {
+	B uint8
+	A string `mavlen:"-3"`
+}
+
+func (*MessageBadNegativeLenString) GetID() uint32 { return 900024 }
+
+type MessageBadEmptyLenTag struct {
+	A string `mavlen:" 5"`
+}
+
+func (*MessageBadEmptyLenTag) GetID() uint32 { return 900025 }
+
 var malformed = []message.Message{
+	&MessageBadZeroLenString{}, &MessageBadNegativeLenString{}, &MessageBadEmptyLenTag{},
 	&MessageBadNamedScalar{}, &MessageBadNamedString{}, &MessageBadNamedArrayElem{}, &MessageBadEnumWithoutTag{},
 	&NoPrefixStruct{}, &MessageBadEnumNotUint64{}, &MessageBadEnumWireFloat{}, &MessageBadEnumWireUnknown{},
 	&MessageBadEnumWireInt16{}, &MessageBadInt{}, &MessageBadBool{}, &MessageBadSlice{}, &MessageBadPointer{},
